@@ -1,4 +1,63 @@
-import TransportVerif.Model.ListenerLife
+import TransportVerif.Link.ListenerLife
+import TransportVerif.Proofs.ListenerLife
+/-
+C12 — the UDP listener's socket lives exactly as long as the listener or an accepted connection.
+The statements below are FIXED; only the proofs may change.
+-/
 namespace TV.Props.C12
-theorem placeholder : True := trivial
+open TV TV.ListenerLife TV.LifeLink
+
+/-- Main theorem (exact reference count).  For every scenario (connections already accepted,
+    connections waiting in the backlog, any number of Accept callers, a listener Close, Closes of
+    accepted connections, datagram arrivals) and EVERY interleaving at the yield points of Accept,
+    listener Close and Conn.Close, the count that decides when the socket is closed equals: the
+    listener's reference (until its Close drops it) + the connections waiting in the backlog + the
+    connections handed to clients whose Close has not started.  In particular it never goes
+    negative (no subtraction in the model underflows) and -/
+theorem count_exact (accepted queued backlog : Nat) (roles : List Role) (ops : List Op)
+    (hw : WfRoles accepted roles) :
+    let s := run backlog (Sys.init accepted queued roles) ops
+    s.wg = listenerRef s + s.acceptQ.length + openHeld accepted s := by
+  exact Proofs.ListenerLife.count_of_inv (Proofs.ListenerLife.inv_reach ops hw)
+
+/-- … the socket is closed exactly when that count is zero: never while the listener or a
+    connection returned by Accept is still open, and as soon as the last of them is closed. -/
+theorem socket_closed_iff (accepted queued backlog : Nat) (roles : List Role) (ops : List Op)
+    (hw : WfRoles accepted roles) :
+    let s := run backlog (Sys.init accepted queued roles) ops
+    s.sockClosed = true ↔ (listenerRef s = 0 ∧ s.acceptQ.length = 0 ∧ openHeld accepted s = 0) := by
+  exact Proofs.ListenerLife.sock_of_inv (Proofs.ListenerLife.inv_reach ops hw)
+
+/-- closing the listener makes later Accept calls fail: with the listener's done channel closed
+    and nothing queued, an Accept at its select returns an error -/
+theorem accept_fails_after_close (s : Sys) (t : Nat) (h : s.ths[t]? = some { role := .acceptor, pc := .atSelect })
+    (hd : s.doneClosed = true) (hq : s.acceptQ = []) :
+    (step s t).ths[t]? = some { role := .acceptor, pc := .done .err } := by
+  simp [step, h, hd, hq, Sys.setPc, List.getElem?_mapIdx]
+
+/-- listener Close discards the connections nobody accepted and stops accepting, in any state -/
+theorem unaccepted_discarded (s : Sys) (t : Nat) (h : s.ths[t]? = some { role := .lcloser, pc := .atLock }) :
+    (step s t).acceptQ = [] ∧ ∀ c ∈ s.acceptQ, c ∉ (step s t).table := by
+  simp only [step, h]
+  have hc : ∀ x : Sys, x.cascade.acceptQ = x.acceptQ ∧ x.cascade.table = x.table := by
+    intro x; rw [Proofs.ListenerLife.cascade_eq]; exact ⟨rfl, rfl⟩
+  have hp : ∀ (x : Sys) (pc : Pc), (x.setPc t pc).acceptQ = x.acceptQ ∧ (x.setPc t pc).table = x.table :=
+    fun _ _ => ⟨rfl, rfl⟩
+  split <;> simp only [hp, hc] <;> refine ⟨trivial, ?_⟩ <;> intro c hm <;> simp [List.mem_filter, hm]
+
+/-- once the listener Close has begun nothing new is accepted: arrivals create no connection -/
+theorem no_new_conn_after_close (s : Sys) (backlog : Nat) (h : s.accepting = false) : s.arrive backlog = s := by
+  simp [Sys.arrive, h]
+
+/-- nobody stays blocked for ever in a Close: at a state where no thread can move, no thread is
+    blocked waiting for the read loop (the socket has been closed by then) -/
+theorem no_close_stuck (s : Sys) (h : Reach s) (hq : ∀ th ∈ s.ths, th.atYield = false) :
+    ∀ th ∈ s.ths, th.pc ≠ .parkedWait := by
+  obtain ⟨accepted, queued, backlog, roles, ops, hw, rfl⟩ := h
+  exact Proofs.ListenerLife.stuck_of_inv (Proofs.ListenerLife.inv_reach ops hw) hq
+
+-- the pinned tree's race on the repaired model: Accept takes the queued connection, Close runs
+-- completely; the socket stays open until that connection is closed
+example : (run 1 (Sys.init 0 1 [.acceptor, .lcloser]) [.grant 0, .grant 0, .grant 1, .grant 1]).sockClosed = false := by decide
+
 end TV.Props.C12
